@@ -1,8 +1,9 @@
 """Worker for C02: run generated control-flow skeletons under the real AstEval and under CPython.
 
 stdin JSON {"cases": [case, ...]} -> 'RESULT [obs, ...]', obs = {"ps": {"log": [...], "res": [...]}, "py": {...}}.
-A case is {"body": [stmt...], "scripts": [[site, [0/1...]]...], "mgrs": [[id, enter, exit]...], "msgs": [[site, cls|None]...]}
-(msgs: what evaluating the message expression ms(site) of an assert raises); the statement
+A case is {"body": [stmt...], "scripts": [[site, [0/1...]]...], "mgrs": [[id, enter, exit]...], "msgs": [[site, cls|None]...],
+"hcs": [site...]} (msgs: what evaluating the message expression ms(site) of an assert raises; hcs: sites of rebindable global
+class names HCk, whose script values are class id + 1, 0 = the empty tuple); the statement
 encoding is documented at `render`.  Only stdlib is imported at module level so that vh.props.c02 can reuse the
 pure helpers (renderer, class table)."""
 import json
@@ -49,6 +50,8 @@ def class_table():
 def _matcher_src(m):
     if m is None:
         return ""
+    if isinstance(m, dict):      # {"var": k, "cs": [...]}: a global class name HCk that sw(k) rebinds
+        m = list(m["cs"]) + [f"HC{m['var']}"]
     if len(m) == 1:
         return " " + m[0]
     return " (" + ", ".join(m) + ")"
@@ -59,7 +62,9 @@ def render_block(stmts, ind, out):
     ["t", n] ["pass"] ["probe", k, name] ["if", k, body, orelse] ["while", k, body, orelse] ["for", k, body, orelse]
     ["break"] ["continue"] ["return", v|None] ["raise", cls, cause|None] ["reraise"]
     ["try", body, [[matcher(list of class names)|None, name|None, body]...], orelse, finalbody]
-    ["with", [mgr ids], body] ["assert", k] / ["assert", k, msg site|None] ["func", k, body]"""
+    ["with", [mgr ids], body] ["assert", k] / ["assert", k, msg site|None] ["func", k, body]
+    ["sw", k] (rebinds the global class name HCk; a matcher {"var": k, "cs": [...]} reads it)
+    ["withs", k, xbody, body] (with MSk(): body — MSk is a class written in the script whose __exit__ runs xbody)"""
     pad = "    " * ind
     if not stmts:
         raise ValueError("empty block")
@@ -101,6 +106,11 @@ def render_block(stmts, ind, out):
         elif op == "with":
             out.append(pad + "with " + ", ".join(f"M({k})" for k in s[1]) + ":")
             render_block(s[2], ind + 1, out)
+        elif op == "sw":
+            out.append(f"{pad}sw({s[1]})")
+        elif op == "withs":
+            out.append(f"{pad}with MS{s[1]}():")
+            render_block(s[3], ind + 1, out)
         elif op == "assert":
             out.append(f"{pad}assert c({s[1]})" + (f", ms({s[2]})" if len(s) > 2 and s[2] is not None else ""))
         elif op == "func":
@@ -111,8 +121,31 @@ def render_block(stmts, ind, out):
             raise ValueError(f"unknown statement {s!r}")
 
 
+def script_managers(stmts, acc):
+    for s in stmts:
+        op = s[0]
+        if op in ("if", "while", "for"):
+            script_managers(s[2], acc)
+            script_managers(s[3], acc)
+        elif op == "try":
+            for b in [s[1], s[3], s[4]] + [h[2] for h in s[2]]:
+                script_managers(b, acc)
+        elif op in ("with", "func"):
+            script_managers(s[2], acc)
+        elif op == "withs":
+            acc.append(s)
+            script_managers(s[2], acc)
+            script_managers(s[3], acc)
+    return acc
+
+
 def render(case):
-    out = ["def main():"]
+    out = []
+    for s in script_managers(case["body"], []):
+        out += [f"class MS{s[1]}:", "    def __enter__(self):", f"        en({s[1]})", "        return self",
+                "    def __exit__(self, et, ev, tb):", f"        ex({s[1]}, ev)"]
+        render_block(s[2], 2, out)
+    out.append("def main():")
     render_block(case["body"], 1, out)
     return "\n".join(out) + "\n"
 
@@ -124,7 +157,7 @@ class Overrun(BaseException):
     """safety net: a skeleton produced more events than any generated skeleton can"""
 
 
-def make_env(case, log, classes):
+def make_env(case, log, classes, G):
     full = {int(k): list(v) for k, v in case["scripts"]}
     cur = {k: list(v) for k, v in full.items()}
     mgrs = {int(m[0]): (m[1], m[2]) for m in case["mgrs"]}
@@ -154,6 +187,24 @@ def make_env(case, log, classes):
         b = pop(k)
         add(["c", k, b])
         return b
+
+    by_id = {cid: classes[name] for name, cid in CLASS_IDS.items()}
+
+    def binding(k):
+        rem = cur.get(k, [])
+        return by_id[rem[0] - 1] if rem and rem[0] != 0 else ()
+
+    def sw(k):
+        rem = cur.get(k, [])[1:]
+        cur[k] = rem if rem else list(full.get(k, []))
+        G[f"HC{k}"] = binding(k)
+        add(["sw", k])
+
+    def en(k):
+        add(["enter", k])
+
+    def ex(k, ev):
+        add(["exit", k] + exc_info(ev))
 
     def ms(j):
         add(["msg", j])
@@ -203,7 +254,10 @@ def make_env(case, log, classes):
                 raise classes[ex[1]]()
             return bool(ex)
 
-    return {"t": t, "c": c, "ms": ms, "p": p, "fr": fr, "It": It, "M": M}
+    env = {"t": t, "c": c, "ms": ms, "p": p, "fr": fr, "It": It, "M": M, "sw": sw, "en": en, "ex": ex}
+    for k in case.get("hcs", []):
+        env[f"HC{k}"] = binding(int(k))
+    return env
 
 
 def result_of(fn_result=None, exc=None):
@@ -217,7 +271,7 @@ def run_cpython(case, src):
     log = []
     classes = class_objects()
     g = dict(classes)
-    g.update(make_env(case, log, classes))
+    g.update(make_env(case, log, classes, g))
     try:
         code = compile(src, "<c02>", "exec")
     except SyntaxError as exc:
@@ -237,7 +291,7 @@ async def run_pyscript(case, src):
     a, _gc = new_interp("pvc02")
     classes = class_objects()      # native classes: pyscript's own class machinery is C03's subject
     a.global_sym_table.update(classes)
-    a.global_sym_table.update(make_env(case, log, classes))
+    a.global_sym_table.update(make_env(case, log, classes, a.global_sym_table))
     try:
         a.parse(src)
         await a.eval()
